@@ -2277,16 +2277,9 @@ impl Archive {
 
             if sector_end < sector_start {
                 // This can happen with corrupted or malformed archives
-                // Try to recover by using the expected sector size
-                log::warn!(
-                    "Invalid sector offsets detected: start={sector_start}, end={sector_end} for sector {i}. Attempting recovery."
-                );
-
-                // Skip this sector and continue with zeros
-                let remaining = file_info.file_size as usize - decompressed_data.len();
-                let expected_size = remaining.min(sector_size);
-                decompressed_data.extend(vec![0u8; expected_size]);
-                continue;
+                return Err(Error::invalid_format(format!(
+                    "Invalid sector offsets for sector {i}: start={sector_start}, end={sector_end}"
+                )));
             }
 
             let sector_size_compressed = (sector_end - sector_start) as usize;
@@ -2342,10 +2335,8 @@ impl Archive {
                         match compression::decompress(sector_data, 0x08, expected_size) {
                             Ok(decompressed) => decompressed,
                             Err(e) => {
-                                log::warn!(
-                                    "Failed to decompress IMPLODE sector {i}: {e}. Using zeros."
-                                );
-                                vec![0u8; expected_size]
+                                log::warn!("Failed to decompress IMPLODE sector {i}: {e}");
+                                return Err(e);
                             }
                         }
                     } else {
@@ -2359,14 +2350,15 @@ impl Archive {
                         ) {
                             Ok(decompressed) => decompressed,
                             Err(e) => {
-                                log::warn!("Failed to decompress sector {i}: {e}. Using zeros.");
-                                vec![0u8; expected_size]
+                                log::warn!("Failed to decompress sector {i}: {e}");
+                                return Err(e);
                             }
                         }
                     }
                 } else {
-                    log::warn!("Empty compressed sector data for sector {i}. Using zeros.");
-                    vec![0u8; expected_size]
+                    return Err(Error::compression(format!(
+                        "Empty compressed sector data for sector {i}"
+                    )));
                 }
             } else {
                 // Sector is not compressed
